@@ -393,7 +393,7 @@ fn case_buffered(cx: &mut Cx, cs: u64) {
                     // C13: datagrams of the C05 form with a single newline; leftovers sent on flush / drop
                     if !v.after_fault && (v.rule == "F1" || (v.rule == "F2" && matches!(v.class, "flush-left-data" | "lost-at-drop"))) { Some("C13") } else { None }
                 } else {
-                    attribute(&v)
+                    attribute(&v).into_iter().find(|p| *p == cx.prop)
                 };
                 if let Some(p) = target {
                     cx.violation(p, v.rule, v.class, format!("[{} cap={} step {}] {}", label, cap, v.step, v.detail), jobj! {"embodiment" => label, "capacity" => cap, "history" => hist(&steps)}, cs);
